@@ -27,6 +27,10 @@ CANARIES = [
      "                symbol[: m.start(0)]\n                + (\"-\" if len(m.group(0).replace(\"+\", \"\")) % 2 else \"+\")\n                + symbol[m.end(0) :]",
      "                symbol[: m.start(0)] + \"-\"\n                if len(m.group(0).replace(\"+\", \"\")) % 2\n                else \"+\" + symbol[m.end(0) :]"),
     ("m-c01-resolve-parity", "C01", "parser/parser.py", "(\"-\" if len(m.group(0).replace(\"+\", \"\")) % 2 else \"+\")", "(\"-\" if len(m.group(0).replace(\"-\", \"\")) % 2 else \"+\")"),
+    ("m-c13-ddof-ignored", "C13", "transforms/scale.py", "numpy.sum(data**2, axis=0) / (data.shape[0] - ddof)", "numpy.sum(data**2, axis=0) / (data.shape[0] - 1)"),
+    ("m-c13-refit-on-replay", "C13", "transforms/scale.py", "    if _state[\"center\"] is not None:\n        data = data - _state[\"center\"]", "    if _state[\"center\"] is not None:\n        data = data - (_state[\"center\"] if data.shape[0] < 40 else numpy.mean(data, axis=0))"),
+    ("m-c09-enforce-rename", "C09", "materializers/base.py", "                {col: scoped_cols[col] for col in target_cols},", "                {col: scoped_cols[col] for col in (target_cols if len(target_cols) < 4 else sorted(target_cols))},"),
+    ("m-c06-forward-overrides", "C06", "model_spec.py", "                data, context=context, drop_rows=drop_rows\n            )\n        return cast(\n            \"ModelMatrix\",", "                data, context=context\n            )\n        return cast(\n            \"ModelMatrix\","),
     ("m-c06-raise-inverted", "C06", "materializers/base.py", "                if null_indices:\n                    raise ValueError(f\"`{name}` contains null", "                if not null_indices:\n                    raise ValueError(f\"`{name}` contains null"),
     ("m-c06-drop-skipped", "C06", "materializers/base.py", "                drop_rows.update(null_indices)", "                drop_rows.update(i for i in null_indices if i % 7 != 6)"),
 ]
